@@ -493,43 +493,46 @@ theorem writer_radical_indices (rad : List Str → List Bool) (R A P : List (Lis
   ⟨formatCore_radicalIdx rad R A P, trueIdx_nodup _⟩
 
 /-- Full text-level statement incl. radical marks: reading the written text restores roles, molecules AND the
-    `is_radical` flag of every atom. `natoms` is the molecule parser's atom count; hypothesis `hn`: the parser yields as
-    many atoms for a written molecule string as the writer enumerated (in the written order) — a property of the
-    molecule writer / parser pair (C02/C03). -/
+    `is_radical` flag of every atom. A molecule is given as `(component strings, radical flags of its atoms in the written
+    order)` (`WMol`) — two molecules may print identically and differ only in their marks (the `[Na]` / `[Na]•` tie).
+    `natoms` is the molecule parser's atom count; hypothesis `hn`: the parser yields as many atoms for a written molecule
+    string as the writer enumerated (in the written order) — a property of the molecule writer / parser pair (C02/C03),
+    checked at run time on every molecule of the `fmt` stream. -/
 def RxnReadWriteRadicalsFull : Prop :=
-  ∀ (rad : List Str → List Bool) (natoms : Str → Nat) (R A P : List (List Str)),
-    WrittenOK R → WrittenOK A → WrittenOK P → R ++ A ++ P ≠ [] →
-    (∀ m ∈ R ++ A ++ P, ∀ f ∈ m, ∀ c ∈ f, isSpace c = false) →
-    (∀ m ∈ R ++ A ++ P, natoms (join chDot m) = (rad m).length) →
-    readRxnRad natoms (formatRxn true false (R.map (sigOf rad)) (A.map (sigOf rad)) (P.map (sigOf rad))) =
-      .roles (R.map (join chDot)) (A.map (join chDot)) (P.map (join chDot)) (R.map rad) (A.map rad) (P.map rad)
+  ∀ (natoms : Str → Nat) (R A P : List WMol),
+    WrittenOK (R.map Prod.fst) → WrittenOK (A.map Prod.fst) → WrittenOK (P.map Prod.fst) → R ++ A ++ P ≠ [] →
+    (∀ m ∈ R ++ A ++ P, ∀ f ∈ m.1, ∀ c ∈ f, isSpace c = false) →
+    (∀ m ∈ R ++ A ++ P, natoms (join chDot m.1) = m.2.length) →
+    readRxnRad natoms (formatRxn true false (R.map sigOfW) (A.map sigOfW) (P.map sigOfW)) =
+      .roles ((R.map Prod.fst).map (join chDot)) ((A.map Prod.fst).map (join chDot)) ((P.map Prod.fst).map (join chDot))
+        (R.map Prod.snd) (A.map Prod.snd) (P.map Prod.snd)
 
 /-- **rxn_read_write_radicals.** The full statement holds: any roles (empty ones included), any fragment sizes, salts
     (fragment contraction `f:` and radical indices `^1:` in one block), radical marks anywhere. -/
 theorem rxn_read_write_radicals : RxnReadWriteRadicalsFull :=
-  fun rad natoms R A P hR hA hP hne hsp hn => read_format_rad rad natoms R A P hR hA hP hne hsp hn
+  fun natoms R A P hR hA hP hne hsp hn => read_format_radW natoms R A P hR hA hP hne hsp hn
 
 /-- the same for the default (sorted) signature: molecules and their radical marks are restored in the canonical order -/
-theorem rxn_read_write_radicals_sorted (rad : List Str → List Bool) (natoms : Str → Nat) (R A P : List (List Str))
-    (hR : WrittenOK R) (hA : WrittenOK A) (hP : WrittenOK P) (hne : R ++ A ++ P ≠ [])
-    (hsp : ∀ m ∈ R ++ A ++ P, ∀ f ∈ m, ∀ c ∈ f, isSpace c = false)
-    (hn : ∀ m ∈ R ++ A ++ P, natoms (join chDot m) = (rad m).length) :
-    ∃ R' A' P' : List (List Str), R'.Perm R ∧ A'.Perm A ∧ P'.Perm P ∧
-      readRxnRad natoms (formatRxn false false (R.map (sigOf rad)) (A.map (sigOf rad)) (P.map (sigOf rad))) =
-        .roles (R'.map (join chDot)) (A'.map (join chDot)) (P'.map (join chDot))
-          (R'.map rad) (A'.map rad) (P'.map rad) :=
-  read_format_rad_sorted rad natoms R A P hR hA hP hne hsp hn
+theorem rxn_read_write_radicals_sorted (natoms : Str → Nat) (R A P : List WMol)
+    (hR : WrittenOK (R.map Prod.fst)) (hA : WrittenOK (A.map Prod.fst)) (hP : WrittenOK (P.map Prod.fst))
+    (hne : R ++ A ++ P ≠ [])
+    (hsp : ∀ m ∈ R ++ A ++ P, ∀ f ∈ m.1, ∀ c ∈ f, isSpace c = false)
+    (hn : ∀ m ∈ R ++ A ++ P, natoms (join chDot m.1) = m.2.length) :
+    ∃ R' A' P' : List WMol, R'.Perm R ∧ A'.Perm A ∧ P'.Perm P ∧
+      readRxnRad natoms (formatRxn false false (R.map sigOfW) (A.map sigOfW) (P.map sigOfW)) =
+        .roles ((R'.map Prod.fst).map (join chDot)) ((A'.map Prod.fst).map (join chDot)) ((P'.map Prod.fst).map (join chDot))
+          (R'.map Prod.snd) (A'.map Prod.snd) (P'.map Prod.snd) :=
+  read_format_radW_sorted natoms R A P hR hA hP hne hsp hn
 
 /-- non-trivial instance: `[Na].C>O>` — a two-component reactant whose first atom is a radical, a reagent, no products
     (written as `[Na].C>O> |^1:0,f:0.1|`): the hypotheses hold, so the text reads back to the roles and the flags -/
 example :
     let na : Str := [91, 78, 97, 93]
-    let rad : List Str → List Bool := fun m => if m == [na, [67]] then [true, false] else [false]
     let natoms : Str → Nat := fun s => if s == na ++ [46, 67] then 2 else 1
-    readRxnRad natoms (formatRxn true false [sigOf rad [na, [67]]] [sigOf rad [[79]]] []) =
+    readRxnRad natoms (formatRxn true false [sigOfW ([na, [67]], [true, false])] [sigOfW ([[79]], [false])] []) =
       .roles [na ++ [46, 67]] [[79]] [] [[true, false]] [[false]] [] := by
-  intro na rad natoms
-  have h := rxn_read_write_radicals rad natoms [[na, [67]]] [[[79]]] []
+  intro na natoms
+  have h := rxn_read_write_radicals natoms [([na, [67]], [true, false])] [([[79]], [false])] []
     (by intro m hm; simp at hm; subst hm; refine ⟨by simp, ?_⟩; intro f hf; simp at hf; rcases hf with rfl | rfl <;> decide)
     (by intro m hm; simp at hm; subst hm; refine ⟨by simp, ?_⟩; intro f hf; simp at hf; subst hf; decide)
     (by intro m hm; cases hm)
@@ -538,6 +541,22 @@ example :
         · rcases hf with rfl | rfl <;> revert c <;> decide
         · subst hf; revert c; decide)
     (by intro m hm; simp at hm; rcases hm with rfl | rfl <;> decide)
+  exact h
+
+/-- non-trivial instance: the tie — `[Na]•` and `[Na]` in one role print identically (`[Na].[Na]>> |^1:0|`); each gets
+    its own mark back -/
+example :
+    let na : Str := [91, 78, 97, 93]
+    readRxnRad (fun _ => 1) (formatRxn true false [sigOfW ([na], [true]), sigOfW ([na], [false])] [] []) =
+      .roles [na, na] [] [] [[true], [false]] [] [] := by
+  intro na
+  have h := rxn_read_write_radicals (fun _ => 1) [([na], [true]), ([na], [false])] [] []
+    (by intro m hm; simp at hm; subst hm; refine ⟨by simp, ?_⟩; intro f hf; simp at hf; subst hf; decide)
+    (by intro m hm; cases hm)
+    (by intro m hm; cases hm)
+    (by simp)
+    (by intro m hm f hf c hc; simp at hm; rcases hm with rfl | rfl <;> simp at hf <;> subst hf <;> revert c <;> decide)
+    (by intro m hm; simp at hm; rcases hm with rfl | rfl <;> rfl)
   exact h
 
 /-! ## part 10 — atom-to-atom mapping repair on reading (`postprocess_parsed_reaction`, files/_mapping.py)
